@@ -1,5 +1,6 @@
 import IpaVerif.Model.Util
 import IpaVerif.Model.Prss
+import IpaVerif.Model.UsedSetAtomic
 /-! Line-protocol handlers for property C06 (model side) and the spec-side oracle. Import-free.
 
 Requests
@@ -9,6 +10,7 @@ Requests
   c06.negotiate seed                 → agree <blocks> distinct
   c06.xshard seed shards             → agree <values>
   c06.noreuse dzkp api ty n per seed → ok
+  c06.race side T R seed             → accepted=<R> rounds=<R>   (T threads draw the same fresh index, R rounds)
   c06.used op,op,…                   → ok | panic:…     op = ib:gate:index:Z:chunks | il:… | ir:… | sq:gate:n
 -/
 namespace IpaVerif.Driver.C06
@@ -52,6 +54,15 @@ def handle (toks : List String) : Option String :=
       pure s!"agree {3 * n}").getD "bad-request"
   | ["c06.noreuse", "dzkp", _api, _ty, _n, _per, _seed] => some "ok"
   | ["c06.noreuse", "mac", _n, _seed] => some "ok"
+  | ["c06.race", side, threads, rounds, _seed] => some <| (do
+      let k ← threads.toNat?
+      let r ← rounds.toNat?
+      if k == 0 || !(side == "left" || side == "right" || side == "both") then none else
+      -- one round = `k` threads on one fresh index, each given the processor until its call has returned (any
+      -- schedule gives the same count for the atomic step: theorem exactly_one_accept)
+      let sched := (List.range k).flatMap fun t => [t, t]
+      let perRound := (IpaVerif.UsedSetAtomic.run (IpaVerif.UsedSetAtomic.codeStep fun _ => 0) (IpaVerif.UsedSetAtomic.init []) sched).accepted.length
+      pure s!"accepted={perRound * r} rounds={r}").getD "bad-request"
   | ["c06.used", ops] => some <| (do
       let ops ← (ops.splitOn ",").mapM parseOp
       match run ops with
@@ -86,6 +97,18 @@ def oracle (toks : List String) (impl : String) : Option String :=
   | ["c06.xshard", _, _] => verdict (some (impl.startsWith "agree")) "shards of a helper / neighbouring helpers disagree on cross-shard randomness"
   | "c06.noreuse" :: _ =>
       verdict (some (impl == "ok")) "a multi-batch protocol run drew a (step, index, offset) twice (debug-build detector fired) or did not complete"
+  | ["c06.race", _side, _threads, rounds, _seed] =>
+    -- spec: every round offers ONE fresh index to all threads at once; never reused = exactly one draw per round succeeds
+    match impl.splitOn " " with
+    | [a, r] =>
+      match (a.dropPrefix? "accepted=").bind (·.toString.toNat?), (r.dropPrefix? "rounds=").bind (·.toString.toNat?), rounds.toNat? with
+      | some acc, some rr, some want =>
+        if rr != want then some "fails the suite ran a different number of rounds"
+        else if acc > rr then some s!"fails the same index was accepted more than once under one key: {acc} accepted draws in {rr} rounds of concurrent draws of one fresh index"
+        else if acc < rr then some s!"fails a fresh index was refused to every caller in some round: {acc} accepted draws in {rr} rounds"
+        else some "holds"
+      | _, _, _ => some "unknown"
+    | _ => if impl.startsWith "panic" || impl.startsWith "timeout" then some s!"fails {impl}" else some "unknown"
   | ["c06.used", ops] => verdict (do
       -- spec: a panic is required exactly when some (gate, side, index, offset) is drawn twice, a gate is used
       -- both ways, a sequential gate is requested twice, or an offset exceeds the cap
